@@ -28,6 +28,13 @@ pub fn run(out: &mut Out, seed: u64, tier: &str) {
     let find = |n: &str| lib.iter().find(|m| m.name == n).cloned();
     let mut queue: Vec<(Mol, Mol)> = vec![];
     for (x, y) in contrast.iter() { if let (Some(a), Some(b)) = (find(x), find(y)) { queue.push((distort(&a, 0.03, &mut rng), distort(&b, 0.03, &mut rng))); } }
+    // a fragment whose FIRST atom has fewer than two neighbours (a terminal S, P, O, N listed before its partner) after a fragment
+    // with a sharply bent centre: whatever is computed per atom must not carry over from the atom before
+    let bent: Vec<Mol> = ["phosphine", "water", "arsine", "cyclopropane"].iter().filter_map(|n| find(n)).chain(std::iter::once(centre(16, 1, "bent", 1.0))).collect();
+    for (k, tail) in [vec![16usize, 6, 16], vec![15, 7], vec![16, 8], vec![15, 8], vec![8, 6, 8], vec![7, 7, 8], vec![16, 16], vec![15, 15]].iter().enumerate() {
+        let b = bent[k % bent.len()].clone();
+        queue.push((distort(&b, 0.02, &mut rng), distort(&linear_chain(tail, 0.95), 0.02, &mut rng)));
+    }
     for pair in 0..(n_pairs + queue.len()) {
         // every fifth pair is systematic: a library molecule (lone pairs, pi systems) next to a four-coordinate metal centre —
         // the typing of such a centre (formal charge, d8-ness, square-planar vs tetrahedral) must not depend on its neighbour
